@@ -33,7 +33,15 @@ static void query(ITree<P> &tree, const std::vector<INode<P> *> &live, P lb, P u
 	if(g_bad) return;
 	std::vector<int> hits;
 	auto cb = [&](INode<P> *n) { hits.push_back(n->id); };
-	if(point) tree.for_overlaps(cb, lb); else tree.for_overlaps(cb, lb, ub);
+	// every third query passes its bounds as variables that the callback itself overwrites while the query runs (the accumulator
+	// idiom: `reach = max(reach, n->hi)`): the bounds of a query are the values given at the call
+	static uint64_t qn = 0;
+	if(++qn % 3 == 0) {
+		P vlb = lb, vub = ub;
+		auto cb2 = [&](INode<P> *n) { hits.push_back(n->id); vlb = n->lo; vub = n->hi; };
+		if(point) tree.for_overlaps(cb2, vlb); else tree.for_overlaps(cb2, vlb, vub);
+		count("queries_whose_callback_overwrites_the_bound_variables");
+	} else if(point) tree.for_overlaps(cb, lb); else tree.for_overlaps(cb, lb, ub);
 	std::vector<int> exp;
 	for(auto *n : live) if(n->lo <= ub && lb <= n->hi) exp.push_back(n->id);
 	std::sort(hits.begin(), hits.end()); std::sort(exp.begin(), exp.end());
